@@ -371,3 +371,71 @@ def build_assembly(ad):
         conn.append(cc)
     ass = PanelAssembly([ps[i] for i in ad['order']], conn=conn if conn else None)
     return ass, ps, conn
+
+
+# ----------------------------------------------------------------------------
+# complete shells (ConeCyl)
+# ----------------------------------------------------------------------------
+CLPT_MODELS = ['clpt_donnell_bc1', 'clpt_donnell_bc2', 'clpt_donnell_bc3', 'clpt_donnell_bc4',
+               'clpt_sanders_bc1', 'clpt_sanders_bc2', 'clpt_sanders_bc3', 'clpt_sanders_bc4']
+ISO_MODELS = ['iso_clpt_donnell_bc2', 'iso_clpt_donnell_bc3']
+FSDT_MODELS = ['fsdt_donnell_bc1', 'fsdt_donnell_bc2', 'fsdt_donnell_bc3', 'fsdt_donnell_bc4', 'fsdt_donnell_bcn', 'fsdt_sanders_bcn']
+NL_MODELS = ['clpt_donnell_bc1', 'clpt_donnell_bc2', 'clpt_donnell_bc3', 'clpt_donnell_bc4',
+             'clpt_sanders_bc1', 'clpt_sanders_bc2', 'clpt_sanders_bc3', 'clpt_sanders_bc4',
+             'iso_clpt_donnell_bc2', 'iso_clpt_donnell_bc3', 'fsdt_donnell_bc1', 'fsdt_donnell_bcn']
+SPRINGS = {'bc1': ['kphix'], 'bc2': ['ku', 'kphix'], 'bc3': ['kv', 'kphix'], 'bc4': ['ku', 'kv', 'kphix'],
+           'bcn': ['ku', 'kv', 'kw', 'kphix', 'kphit']}
+
+
+def shell_desc(rng, models=None, cone=None, mmax=4, nmax=3, springs=True):
+    if models is None:
+        models = CLPT_MODELS + ISO_MODELS + FSDT_MODELS
+    model = str(rng.choice(list(models)))
+    d = {'model': model}
+    if cone is None:
+        cone = rng.random() < 0.5
+    d['alphadeg'] = float(rng.uniform(0.5, 60)) if cone else 0.0
+    r2 = logu(rng, 0.05, 2)
+    L = r2 * logu(rng, 0.3, 4)
+    d['r2'] = r2; d['L'] = L
+    h = r2 * logu(rng, 2e-3, 2e-2)
+    if model.startswith('iso_'):
+        d['E11'] = logu(rng, 1e9, 3e11); d['nu'] = float(rng.uniform(0.0, 0.45)); d['h'] = h
+    else:
+        n = int(rng.integers(1, 5))
+        mat = material(rng, 6 if 'fsdt' in model else None, iso_ok=True)
+        d['stack'] = [angle(rng) for _ in range(n)]
+        d['plyt'] = h / n
+        d['laminaprop'] = list(mat)
+    d['m1'] = int(rng.integers(1, mmax + 1)); d['m2'] = int(rng.integers(1, mmax + 1)); d['n2'] = int(rng.integers(1, nmax + 1))
+    d['s'] = int(rng.choice([10, 20, 40]))
+    if springs:
+        bc = model.split('_')[-1]
+        for nm in SPRINGS.get(bc, []):
+            for edge in ('Bot', 'Top'):
+                d[nm + edge] = float(rng.choice([0., 1e8])) if rng.random() < 0.5 else float(10 ** rng.uniform(0, 8))
+    return d
+
+
+def build_shell(d):
+    from compmech.conecyl import ConeCyl
+    cc = ConeCyl()
+    cc.model = d['model']
+    cc.alphadeg = d['alphadeg']
+    cc.r2 = d['r2']; cc.L = d['L']
+    if 'stack' in d:
+        cc.stack = list(d['stack']); cc.plyt = d['plyt']; cc.laminaprop = tuple(d['laminaprop'])
+    else:
+        cc.E11 = d['E11']; cc.nu = d['nu']; cc.h = d['h']
+    cc.m1 = d['m1']; cc.m2 = d['m2']; cc.n2 = d['n2']; cc.s = d['s']
+    for k, v in d.items():
+        if k.startswith('k') and (k.endswith('Bot') or k.endswith('Top')):
+            setattr(cc, k, v)
+    for k in ('P', 'P_inc', 'Fc', 'T', 'T_inc', 'pdC', 'pdT', 'uTM', 'thetaTdeg', 'nx', 'nt', 'ni_method', 'ni_num_cores'):
+        if k in d:
+            setattr(cc, k, d[k])
+    cc.out_num_cores = 1
+    cc.nx = d.get('nx', max(4 * max(d['m1'], d['m2']) + 4, 16))
+    cc.nt = d.get('nt', max(4 * d['n2'] + 5, 16))
+    cc.ni_num_cores = d.get('ni_num_cores', 1)
+    return cc
